@@ -49,8 +49,9 @@ Inductive fval :=
 | RBad.                            (* symbol, string, list ... *)
 Inductive fres := FRet (v : fval) | FRaise (e : Z).
 
-(* call index, arguments, store at the time of the call *)
-Definition oracle := nat -> list val -> store -> fres.
+(* call index, arguments, store at the time of the call  ->  outcome and the global assignments
+   (name :: value) the function itself made during this call, in order *)
+Definition oracle := nat -> list val -> store -> fres * list (name * val).
 
 (* interpreter state: the store plus the log of calls of the differentiated function *)
 Record st := mkSt { sto : store ; log : list (list val * store) }.
@@ -166,10 +167,14 @@ Definition create_grad_tensor (v : val) : M val :=
   end.
 
 (* ---- the differentiated function --------------------------------------------- *)
+Definition apply_writes (ws : list (name * val)) (vs : list (name * val)) : list (name * val) :=
+  fold_left (fun acc w => setv (fst w) (snd w) acc) ws vs.
+
 Definition call_f (O : oracle) (args : list val) : M fval :=
   fun s =>
-    let s' := mkSt (sto s) (log s ++ [(args, sto s)]) in
-    match O (length (log s)) args (sto s) with
+    let '(r, ws) := O (length (log s)) args (sto s) in
+    let s' := mkSt (mkStore (apply_writes ws (vars (sto s))) (heap (sto s))) (log s ++ [(args, sto s)]) in
+    match r with
     | FRet v => (Ok v, s')
     | FRaise e => (Err (ERaise e), s')
     end.
